@@ -438,6 +438,10 @@ class DMRGEngine(IterativeSweeps):
             # diagonal singular values, but the state still needs to be brought into canonical form.
             self.mixer_deactivate()
         self._canonicalize(True)
+        for o_env in self.ortho_to_envs:
+            # `mixer_cleanup` and `canonical_form` changed the tensors (gauge) of `psi`: the cached overlap
+            # environments with the states to orthogonalize against are outdated for a further `run()`
+            o_env.clear()
         logger.info(f'{self.__class__.__name__} finished after {self.sweeps} sweeps, max chi={max(self.psi.chi)}')
         if (len(self.ortho_to_envs) > 0) and (self.sweep_stats['E'][-1] > -1e-8):
             msg = (
